@@ -105,9 +105,96 @@ CHECKS["C06"] = {
     "assumptions": ASSUME_COMMON,
 }
 
+CHECKS["C07"] = {
+    "level": "exploration",
+    "shards": {"quick": 16, "thorough": 32},
+    "budget": {"quick": 45, "thorough": 420},
+    "rule": GEN_RULE + "; the element-kind x length-form matrix (14 kinds x 9 forms, null-terminated only for the "
+                       "statement's element list) is instantiated on every run in both readers, plus array-heavy "
+                       "generated definitions, direct use (cs.uint24[3](...)) and wrong-count dumps that must be "
+                       "refused; parse and dump are compared with the reference model",
+    "anchors": ["types/base.py", "types/", "cstruct.py", "parser.py"],
+    "required_reach": ["types/base.py:BaseArray._read", "types/base.py:BaseArray._write",
+                       "types/base.py:MetaType._read_array", "types/packed.py:Packed._read_array",
+                       "types/packed.py:Packed._read_0", "types/int.py:Int._read_0", "types/char.py:Char._read_0",
+                       "types/wchar.py:Wchar._read_0", "types/leb128.py:LEB128._read_0",
+                       "types/enum.py:EnumMetaType._read_0", "types/structure.py:StructureMetaType._read_0",
+                       "cstruct.py:cstruct._make_array", "<compiled>"],
+    "required_cells": ['packedxfixed0:interpreted', 'packedxfixed1:interpreted', 'packedxfixedk:interpreted', 'packedxexpr:interpreted', 'packedxexprneg:interpreted', 'packedxexprconst:interpreted', 'packedxexprsizeof:interpreted', 'packedxnull:interpreted', 'packedxeof:interpreted', 'widexfixed0:interpreted', 'widexfixed1:interpreted', 'widexfixedk:interpreted', 'widexexpr:interpreted', 'widexexprneg:interpreted', 'widexexprconst:interpreted', 'widexexprsizeof:interpreted', 'widexnull:interpreted', 'widexeof:interpreted', 'floatxfixed0:interpreted', 'floatxfixed1:interpreted', 'floatxfixedk:interpreted', 'floatxexpr:interpreted', 'floatxexprneg:interpreted', 'floatxexprconst:interpreted', 'floatxexprsizeof:interpreted', 'floatxeof:interpreted', 'charxfixed0:interpreted', 'charxfixed1:interpreted', 'charxfixedk:interpreted', 'charxexpr:interpreted', 'charxexprneg:interpreted', 'charxexprconst:interpreted', 'charxexprsizeof:interpreted', 'charxnull:interpreted', 'charxeof:interpreted', 'wcharxfixed0:interpreted', 'wcharxfixed1:interpreted', 'wcharxfixedk:interpreted', 'wcharxexpr:interpreted', 'wcharxexprneg:interpreted', 'wcharxexprconst:interpreted', 'wcharxexprsizeof:interpreted', 'wcharxnull:interpreted', 'wcharxeof:interpreted', 'enumxfixed0:interpreted', 'enumxfixed1:interpreted', 'enumxfixedk:interpreted', 'enumxexpr:interpreted', 'enumxexprneg:interpreted', 'enumxexprconst:interpreted', 'enumxexprsizeof:interpreted', 'enumxnull:interpreted', 'enumxeof:interpreted', 'flagxfixed0:interpreted', 'flagxfixed1:interpreted', 'flagxfixedk:interpreted', 'flagxexpr:interpreted', 'flagxexprneg:interpreted', 'flagxexprconst:interpreted', 'flagxexprsizeof:interpreted', 'flagxnull:interpreted', 'flagxeof:interpreted', 'lebxfixed0:interpreted', 'lebxfixed1:interpreted', 'lebxfixedk:interpreted', 'lebxexpr:interpreted', 'lebxexprneg:interpreted', 'lebxexprconst:interpreted', 'lebxexprsizeof:interpreted', 'lebxnull:interpreted', 'lebxeof:interpreted', 'structxfixed0:interpreted', 'structxfixed1:interpreted', 'structxfixedk:interpreted', 'structxexpr:interpreted', 'structxexprneg:interpreted', 'structxexprconst:interpreted', 'structxexprsizeof:interpreted', 'structxeof:interpreted', 'intstructxfixed0:interpreted', 'intstructxfixed1:interpreted', 'intstructxfixedk:interpreted', 'intstructxexpr:interpreted', 'intstructxexprneg:interpreted', 'intstructxexprconst:interpreted', 'intstructxexprsizeof:interpreted', 'intstructxnull:interpreted', 'intstructxeof:interpreted', 'dynstructxfixed0:interpreted', 'dynstructxfixed1:interpreted', 'dynstructxfixedk:interpreted', 'dynstructxexpr:interpreted', 'dynstructxexprneg:interpreted', 'dynstructxexprconst:interpreted', 'dynstructxexprsizeof:interpreted', 'dynstructxeof:interpreted', 'arrayxfixed0:interpreted', 'arrayxfixed1:interpreted', 'arrayxfixedk:interpreted', 'arrayxexpr:interpreted', 'arrayxexprneg:interpreted', 'arrayxexprconst:interpreted', 'arrayxexprsizeof:interpreted', 'arrayxeof:interpreted', 'chararrayxfixed0:interpreted', 'chararrayxfixed1:interpreted', 'chararrayxfixedk:interpreted', 'chararrayxexpr:interpreted', 'chararrayxexprneg:interpreted', 'chararrayxexprconst:interpreted', 'chararrayxexprsizeof:interpreted', 'chararrayxeof:interpreted', 'ptrxfixed0:interpreted', 'ptrxfixed1:interpreted', 'ptrxfixedk:interpreted', 'ptrxexpr:interpreted', 'ptrxexprneg:interpreted', 'ptrxexprconst:interpreted', 'ptrxexprsizeof:interpreted', 'ptrxeof:interpreted'] + ["direct-use", "shadowing"],
+    "assumptions": ASSUME_COMMON,
+}
+
+CHECKS["C08"] = {
+    "level": "fault_enumeration",
+    "shards": {"quick": 16, "thorough": 32},
+    "budget": {"quick": 45, "thorough": 420},
+    "rule": GEN_RULE + "; for every accepted (definition, configuration, input) the cut points k < extent are "
+                       "enumerated (all in thorough, <=90 per input incl. the last-data-byte boundary in quick) and "
+                       "a fault (0 bytes / half the bytes / OSError) is injected at EVERY read call of the fault-free "
+                       "run, taken from its recorded event log; one evaluation = one cut or one injected fault; "
+                       "after failures a fault-free parse must reproduce the baseline (residue)",
+    "anchors": ["types/", "compiler.py"],
+    "required_reach": ["types/packed.py:Packed._read_array", "types/int.py:Int._read", "types/char.py:Char._read_array",
+                       "types/wchar.py:Wchar._read_array", "types/leb128.py:LEB128._read",
+                       "types/structure.py:UnionMetaType._read", "<compiled>"],
+    "required_cells": ["align:True", "align:False", "compiled:True", "compiled:False", "dynamic-union", "feat:union",
+                       "feat:bits"],
+    "assumptions": ASSUME_COMMON + ["faults are injected at read() calls of file-like streams; bytes inputs are "
+                                    "covered through the cut points"],
+}
+
+CHECKS["C09"] = {
+    "level": "exploration",
+    "shards": {"quick": 16, "thorough": 32},
+    "budget": {"quick": 45, "thorough": 420},
+    "rule": GEN_RULE + "; every input is parsed alone, at several start offsets with random prefix/suffix through a "
+                       "recording stream (event log: lowest offset read, highest read end, final position), in "
+                       "histories of 2-4 reads on one stream, and through every input kind x call form",
+    "anchors": ["types/base.py", "types/structure.py", "cstruct.py", "compiler.py"],
+    "required_reach": ["types/base.py:MetaType.__call__", "types/base.py:MetaType.read", "types/base.py:MetaType.reads",
+                       "cstruct.py:cstruct.read", "types/base.py:_is_eof", "types/structure.py:UnionMetaType._read_fields",
+                       "<compiled>"],
+    "required_cells": ["align:True", "align:False", "offsets", "dynamic-union", "form:T.reads(memoryview)",
+                       "form:cs.read(name, BytesIO)", "char-shortcut"],
+    "assumptions": ASSUME_COMMON,
+}
+
 NOT_APPLICABLE = {}
 
 MANIFEST_TEXT = {
+    "C09": {
+        "text": "Recording-stream monitoring of the real readers: each parse is repeated at several start offsets with "
+                "random surrounding bytes, in multi-read histories on one stream and through all input kinds and call "
+                "forms; an offline checker over the recorded read/seek/tell events demands equal values, final "
+                "position = start + encoded size, equal _sizes, no read before the start or beyond the extent. "
+                "Held-on-observed.",
+        "design_ref": "DESIGN.md 4 C09",
+        "note": "aligned structures are parsed at offsets that are multiples of 16 (the statement says 'an aligned "
+                "p'); EOF arrays are exempt from the upper extent bound",
+        "technique": "recorded stream event logs checked offline + metamorphic comparison across offsets/forms",
+    },
+    "C08": {
+        "text": "Fault enumeration on the real readers: for generated definitions x configurations x accepted inputs, "
+                "every cut point of the input and every read call of the recorded fault-free run x {empty, half, "
+                "raise} is executed; an oracle over the outcomes demands an error whenever a data-carrying byte "
+                "(reference-model mask) is missing, never a different value, no swallowed stream exception, no "
+                "spinning on empty reads (logical-step watchdog) and no residue in later parses.",
+        "design_ref": "DESIGN.md 4 C08",
+        "note": "per case the enumeration of cut points (thorough) and read calls is complete; the case space itself "
+                "is sampled; EOF arrays are exempt inside their own extent as the statement says",
+        "technique": "fault injection at every recorded read call + every cut point, outcome oracle",
+    },
+    "C07": {
+        "text": "Runtime monitoring of the real array readers/writers over the complete element-kind x length-form "
+                "matrix (every cell instantiated on every run, both readers, both endians, packed and aligned) and "
+                "array-heavy generated definitions; lengths, contents, consumed bytes and dumps are compared with a "
+                "reference model whose length expressions are evaluated by an independent evaluator; wrong-count "
+                "dumps of fixed arrays must raise. Held-on-observed; an empty matrix cell makes the run inconclusive.",
+        "design_ref": "DESIGN.md 4 C07",
+        "note": "EOF arrays over a partial last element may raise (only returned values are judged); float [] arrays "
+                "are outside the statement's element list",
+        "technique": "matrix workload + reference model oracle on the real array code paths",
+    },
     "C06": {
         "text": "Invariant-at-a-hook monitoring of the real BitBuffer (every read/write/flush/reset of interpreted and "
                 "generated readers and of the writer) plus model comparison of parse and dump; the 8-bit sub-space "
